@@ -1022,7 +1022,13 @@ class DataType(object):
                         "Must have %s fractional digits." %
                         (self.type, value, split_data_type[3])
                     )
-                if int(integral) == 0 and int(fractional) == 0 and integral[:1] in ('+', '-'):
+                if integral.lstrip('+-') == '':
+                    raise EDXMLEventValidationError(
+                        "Invalid value string for data type %s: '%s'. "
+                        "The integral part is missing." %
+                        (self.type, value)
+                    )
+                if int(integral) == 0 and int(fractional or '0') == 0 and integral[:1] in ('+', '-'):
                     raise EDXMLEventValidationError(
                         "Invalid value string for data type %s: '%s'. "
                         "Zero must not have any sign." %
@@ -1069,7 +1075,13 @@ class DataType(object):
                         "Must have four fractional digits." %
                         (self.type, value)
                     )
-                if int(integral) == 0 and int(fractional) == 0 and integral[:1] in ('+', '-'):
+                if integral.lstrip('+-') == '':
+                    raise EDXMLEventValidationError(
+                        "Invalid value string for data type %s: '%s'. "
+                        "The integral part is missing." %
+                        (self.type, value)
+                    )
+                if int(integral) == 0 and int(fractional or '0') == 0 and integral[:1] in ('+', '-'):
                     raise EDXMLEventValidationError(
                         "Invalid value string for data type %s: '%s'. "
                         "Zero must not have any sign." %
